@@ -85,7 +85,28 @@ def witness_cases():
         {"op": "hbatch", "ds": "a", "ents": many}, {"op": "hentities", "ds": "a", "limits": [4]}, {"op": "hentities", "ds": "a", "limits": [0]},
         {"op": "hbatch", "ds": "a", "ents": [sc.with_id("e7", {"deleted": True, "props": {"p1": 1}, "refs": {}})] + many[10:21]},
         {"op": "hentities", "ds": "a", "limits": [10]}, {"op": "entities", "ds": "a", "limits": [3]}] + fin_reads(1, ["e7", "e12"])}
-    return [race, txnrace, merged, big, nullprop, http,
+    # a writer that waited for the lock re-posts what was there BEFORE the other writer's commit: it is a new version
+    stale = {"datasets": ["a"], "ops": [{"op": "batch", "ds": "a", "ents": [sc.with_id("e1", A), sc.with_id("e2", D)]},
+                                        {"op": "race", "ds": "a", "ents": [sc.with_id("e1", A), sc.with_id("e2", D)],
+                                         "second": [sc.with_id("e1", B), sc.with_id("e2", A)],
+                                         "pause_at": "lock.wait", "reader": "rx", "limit": 0}] + fin_reads(1, ["e1", "e2"])}
+    # a refused batch (nil reference in its last entity) leaves no trace: the retry is stored in full
+    retry = [sc.with_id("e1", B), sc.with_id("e2", A), sc.with_id("e3", D)]
+    refused = {"datasets": ["a"], "ops": [{"op": "batch", "ds": "a", "ents": [sc.with_id("e1", A), sc.with_id("e3", A)]},
+                                          {"op": "batch", "ds": "a", "ents": retry, "reject": True}] + fin_reads(1, ["e1", "e2", "e3"])
+               + [{"op": "batch", "ds": "a", "ents": retry}] + fin_reads(1, ["e1", "e2", "e3"])}
+    # one Go-API batch longer than 256 entities with an id repeated at positions 255 / 256 / 300: the 2-byte batch position of the
+    # version key decides which version a lookup finds
+    filler = [sc.with_id("e%d" % i, {"props": {"p1": i % 7}, "refs": {}}) for i in range(1000, 1310)]
+    longb = filler[:255] + [sc.with_id("e1", A), sc.with_id("e1", B)] + filler[255:298] + [sc.with_id("e1", C)] + filler[298:]
+    longbatch = {"datasets": ["a"], "ops": [{"op": "batch", "ds": "a", "ents": longb},
+                                            {"op": "get", "id": sc.NS + "e1", "datasets": ["a"], "merge": True},
+                                            {"op": "get", "id": sc.NS + "e1", "datasets": [], "merge": False},
+                                            {"op": "get", "id": sc.NS + "e1299", "datasets": ["a"], "merge": True}]}
+    return [race, txnrace, merged, big, nullprop, http, stale, refused, longbatch,
+        # two tombstones differing in one reference target only: two versions
+        {"datasets": ["a"], "ops": [{"op": "batch", "ds": "a", "ents": [sc.with_id("e1", sc.TOMBPAIR[0])]},
+                                    {"op": "batch", "ds": "a", "ents": [sc.with_id("e1", sc.TOMBPAIR[1])]}] + fin_reads(1, ["e1"])},
         # F01a: un-delete with a 15-byte property is dropped: listing and lookup keep the deleted version
         {"datasets": ["a"], "ops": [{"op": "batch", "ds": "a", "ents": [sc.with_id("e1", old)]},
                                     {"op": "batch", "ds": "a", "ents": [sc.with_id("e1", new)]}] + fin_reads(1, ["e1"])},
@@ -103,7 +124,7 @@ def corpus_cases():
 def gen_case(rng, nw):
     nds = rng.choice([1, 2, 2, 3])
     pool = sc.IDS[:rng.choice([2, 3, 5])]
-    writes = sc.gen_writes(rng, nds, nw, pool)
+    writes = sc.gen_writes(rng, nds, nw, pool, reject=True)
     ops = []
     memo = {}
     for w in writes:
